@@ -410,12 +410,18 @@ func runBGVShares(c BGVCase, rec *h.Rec) error {
 		ringE.Reduce(mq, mq)
 		return centered(ringE, mq)
 	}
-	var residuals []*big.Int
-	collect := func(r []*big.Int) error {
+	var pools, pools2 smudgePools // decryption shares, re-encryption shares
+	cls := func(i int) int {
+		if i == 0 || !c.Shallow {
+			return 0
+		}
+		return 1
+	}
+	collect := func(k int, r []*big.Int) error {
 		if infNorm(r).Cmp(bigF(x.bParty)) > 0 {
 			return h.Failf("C16:mpbgv:EncToShare:GenShare:noise-above-bound", "decryption-share noise %s exceeds the hard bound %g (sigma=%g)", infNorm(r), x.bParty, c.Sigma)
 		}
-		residuals = append(residuals, r...)
+		pools.add(k, r)
 		return nil
 	}
 
@@ -434,7 +440,7 @@ func runBGVShares(c BGVCase, rec *h.Rec) error {
 				return h.Failf("C16:mpbgv:EncToShare:GenShare:mask-not-reduced", "additive share coefficient %d >= t=%d", v, c.Params.T)
 			}
 		}
-		if err := collect(residual(i, pub[i], sec[i])); err != nil {
+		if err := collect(cls(i), residual(i, pub[i], sec[i])); err != nil {
 			return err
 		}
 	}
@@ -483,19 +489,27 @@ func runBGVShares(c BGVCase, rec *h.Rec) error {
 			len(shares), head(got), head(x.values), c.Params.T, c.LevelIn, levelE, c.Sigma)
 	}
 
-	// smudging lower bound on the decryption shares
-	for len(residuals) < minSmudgeSamples {
-		p := e2s0.AllocateShare(levelE)
+	// smudging lower bound on the decryption shares, separately for the constructor-built instance and for ShallowCopy
+	// instances (copy and copy-of-copy)
+	e2sC := e2s0.ShallowCopy()
+	e2sCC := e2sC.ShallowCopy()
+	for k := 0; pools.short(0) || pools.short(1); k++ {
+		px, kc := e2s0, 0
+		if !pools.short(0) {
+			px, kc = e2sC, 1
+			if k%2 == 1 {
+				px = e2sCC
+			}
+		}
+		p := px.AllocateShare(levelE)
 		s := mpbgv.NewAdditiveShare(params)
-		e2s0.GenShare(x.in.shares[0], ct, &s, &p)
-		if err := collect(residual(0, p, s)); err != nil {
+		px.GenShare(x.in.shares[0], ct, &s, &p)
+		if err := collect(kc, residual(0, p, s)); err != nil {
 			return err
 		}
 	}
-	_, std := stdOf(residuals)
-	rec.Note("std/sigma", std/c.Sigma)
-	if std < 0.8*c.Sigma {
-		return h.Failf("C16:mpbgv:EncToShare:GenShare:smudging-too-small", "pooled std of the decryption-share noise %.3f < 0.8 * requested sigma %g over %d samples", std, c.Sigma, len(residuals))
+	if err := pools.check(c.Sigma, 1, "C16:mpbgv:EncToShare:GenShare:smudging-too-small", rec); err != nil {
+		return err
 	}
 
 	// ---- shares -> encryption ---------------------------------------------------------------------------------------
@@ -506,6 +520,24 @@ func runBGVShares(c BGVCase, rec *h.Rec) error {
 	levelO := c.LevelO
 	ringO := params.RingQ().AtLevel(levelO)
 	crp := s2e0.SampleCRP(levelO, x.crs)
+	// e_i = c0Share_i - NTT(M_i * t^-1) + crp * s_i
+	residual2 := func(i int, sh multiparty.KeySwitchShare, sec multiparty.AdditiveShare) []*big.Int {
+		mq := ringO.NewPoly()
+		x.ecd.RingT2Q(levelO, true, sec.Value, mq)
+		ringO.NTT(mq, mq)
+		ringO.Sub(sh.Value, mq, mq)
+		ringO.MulCoeffsMontgomeryThenAdd(crp.Value, x.in.shares[i].Value.Q, mq)
+		ringO.INTT(mq, mq)
+		ringO.Reduce(mq, mq)
+		return centered(ringO, mq)
+	}
+	collect2 := func(k int, r []*big.Int) error {
+		if infNorm(r).Cmp(bigF(x.bParty)) > 0 {
+			return h.Failf("C16:mpbgv:ShareToEnc:GenShare:noise-above-bound", "re-encryption-share noise %s exceeds the hard bound %g (sigma=%g)", infNorm(r), x.bParty, c.Sigma)
+		}
+		pools2.add(k, r)
+		return nil
+	}
 	c0 := make([]multiparty.KeySwitchShare, n)
 	for i := 0; i < n; i++ {
 		p := s2e(i)
@@ -514,9 +546,33 @@ func runBGVShares(c BGVCase, rec *h.Rec) error {
 		if err := p.GenShare(x.in.shares[i], crp, sec[i], &c0[i]); err != nil {
 			return h.Failf("C16:mpbgv:ShareToEnc:GenShare:error", "%v", err)
 		}
+		if err := collect2(cls(i), residual2(i, c0[i], sec[i])); err != nil {
+			return err
+		}
 		if !ringT.Equal(before, sec[i].Value) {
 			return h.Failf("C16:mpbgv:ShareToEnc:GenShare:input-modified", "GenShare modified the additive share")
 		}
+	}
+	s2eC := s2e0.ShallowCopy()
+	s2eCC := s2eC.ShallowCopy()
+	for k := 0; pools2.short(0) || pools2.short(1); k++ {
+		px, kc := s2e0, 0
+		if !pools2.short(0) {
+			px, kc = s2eC, 1
+			if k%2 == 1 {
+				px = s2eCC
+			}
+		}
+		sh := px.AllocateShare(levelO)
+		if err := px.GenShare(x.in.shares[0], crp, sec[0], &sh); err != nil {
+			return h.Failf("C16:mpbgv:ShareToEnc:GenShare:error", "%v", err)
+		}
+		if err := collect2(kc, residual2(0, sh, sec[0])); err != nil {
+			return err
+		}
+	}
+	if err := pools2.check(c.Sigma, 1, "C16:mpbgv:ShareToEnc:GenShare:smudging-too-small", rec); err != nil {
+		return err
 	}
 	ref2 := multiparty.KeySwitchShare{Value: *c0[0].Value.CopyNew()}
 	for i := 1; i < n; i++ {
@@ -674,6 +730,67 @@ func runBGVRefresh(c BGVCase, rec *h.Rec) error {
 	}
 	if !ct.Equal(ctOrig) {
 		return h.Failf("C16:mpbgv:"+c.Mode+":GenShare:input-modified", "GenShare modified the input ciphertext")
+	}
+
+	// smudging lower bound on refresh shares: without a transform the mask cancels between the two halves of a share,
+	// EncToShareShare + ShareToEncShare = c1*s_in - crp*s_out + e_dec + e_enc at the common level, so the recomputed
+	// e_dec + e_enc must have std >= sqrt(2) * sigma. Asserted per instance class (constructor / ShallowCopy); the party
+	// shares of a refresh run are included, the rest are extra identity-transform shares made with party 0's keys.
+	{
+		lc := c.LevelE
+		if c.LevelO < lc {
+			lc = c.LevelO
+		}
+		ringC := params.RingQ().AtLevel(lc)
+		residual := func(i int, sh multiparty.RefreshShare) []*big.Int {
+			r := ringC.NewPoly()
+			ringC.Add(sh.EncToShareShare.Value, sh.ShareToEncShare.Value, r)
+			ringC.MulCoeffsMontgomeryThenSub(ct.Value[1], x.in.shares[i].Value.Q, r)
+			ringC.MulCoeffsMontgomeryThenAdd(crp.Value, outKeys.shares[i].Value.Q, r)
+			ringC.INTT(r, r)
+			ringC.Reduce(r, r)
+			return centered(ringC, r)
+		}
+		var pools smudgePools
+		collect := func(k int, r []*big.Int) error {
+			if infNorm(r).Cmp(bigF(2*x.bParty)) > 0 {
+				return h.Failf("C16:mpbgv:"+c.Mode+":GenShare:noise-above-bound", "refresh-share noise %s exceeds the hard bound %g (sigma=%g)", infNorm(r), 2*x.bParty, c.Sigma)
+			}
+			pools.add(k, r)
+			return nil
+		}
+		if c.Mode == "refresh" {
+			for i := range shares {
+				k := 1
+				if i == 0 || !c.Shallow {
+					k = 0
+				}
+				if err := collect(k, residual(i, shares[i])); err != nil {
+					return err
+				}
+			}
+		}
+		mC := mtp0.ShallowCopy()
+		mCC := mC.ShallowCopy()
+		for k := 0; pools.short(0) || pools.short(1); k++ {
+			px, kc := mtp0, 0
+			if !pools.short(0) {
+				px, kc = mC, 1
+				if k%2 == 1 {
+					px = mCC
+				}
+			}
+			sh := px.AllocateShare(c.LevelE, c.LevelO)
+			if err := px.GenShare(x.in.shares[0], outKeys.shares[0], ct, crp, nil, &sh); err != nil {
+				return h.Failf("C16:mpbgv:"+c.Mode+":GenShare:error", "%v", err)
+			}
+			if err := collect(kc, residual(0, sh)); err != nil {
+				return err
+			}
+		}
+		if err := pools.check(c.Sigma, math.Sqrt2, "C16:mpbgv:"+c.Mode+":GenShare:smudging-too-small", rec); err != nil {
+			return err
+		}
 	}
 
 	copyShare := func(s multiparty.RefreshShare) multiparty.RefreshShare {
